@@ -389,8 +389,9 @@ func runRollout(r *vs.Rand, i int, seed uint64, out *vs.Out, crash bool) {
 	cfg := rollingCfg(r)
 	replicas := 1 + r.Intn(4)
 	hookMode := ""
-	if cfg.Finalize && r.Chance(50) {
-		hookMode = "finalize-latest"
+	if cfg.Finalize && r.Chance(60) {
+		// the finalize answer depends on the (revisioned) image: true only for the newer images, or only for the oldest one
+		hookMode = r.Pick([]string{"finalize-latest", "finalize-latest", "finalize-oldest"})
 	}
 	sc := newCleanScenario(cfg, replicas, "v1", hookMode)
 	defer sc.w.close()
@@ -602,7 +603,19 @@ func runFaults(r *vs.Rand, i int, seed uint64, out *vs.Out) {
 					{Verb: "get", Resource: cfg.parentResource(), Code: 500, Reason: "InternalError", Always: true},
 					{Verb: "delete", Code: 500, Reason: "InternalError", Always: true},
 				}
-				f := classes[r.Intn(len(classes))]
+				// the read-modify-write of the parent (finalizer add / remove) is the one whose exhausted retries matter most
+				f := classes[[]int{0, 0, 0, 1, 2, 3, 4, 5, 6}[r.Intn(9)]]
+				sc.w.sim.Faults = []*vs.Fault{&f}
+			} else if r.Chance(30) {
+				// one request about the parent itself fails once: the first or second write, or a live read
+				aimed := []vs.Fault{
+					{Verb: "update", Code: 404, Reason: "NotFound", Nth: 1}, {Verb: "update", Code: 404, Reason: "NotFound", Nth: 2},
+					{Verb: "update", Code: 500, Reason: "InternalError", Nth: 1}, {Verb: "update", Code: 409, Reason: "Conflict", Nth: 2},
+					{Verb: "get", Code: 404, Reason: "NotFound", Nth: 1}, {Verb: "get", Code: 404, Reason: "NotFound", Nth: 2}, {Verb: "get", Code: 404, Reason: "NotFound", Nth: 3},
+					{Verb: "updateStatus", Code: 404, Reason: "NotFound", Nth: 1},
+				}
+				f := aimed[r.Intn(len(aimed))]
+				f.Resource = cfg.parentResource()
 				sc.w.sim.Faults = []*vs.Fault{&f}
 			} else {
 				pos := r.Intn(10)
